@@ -34,7 +34,7 @@ pub fn handle(op: &str, a: &[&str]) -> Option<String> {
             }
             let bin = if op == "cli_build" { "ymqs" } else { "ymcls" };
             let mut c = Command::new("cargo");
-            c.args(["build", "--release", "--offline", "--bin", bin, "--manifest-path"])
+            c.args(["build", "--release", "--offline", "--locked", "--bin", bin, "--manifest-path"])
                 .arg(format!("{}/Cargo.toml", repo()))
                 .env("CARGO_TARGET_DIR", target_dir(profile))
                 .env("CARGO_NET_OFFLINE", "true")
